@@ -28,6 +28,15 @@ Space = for each of two base models (MIN: everything empty/absent; RICH: one of 
 base in at most two dimensions (each dimension at its full alphabet x all pairs of dimensions at their full alphabets);
 thorough adds the full product  pkg x act x svc x rcv x prv x main{none, one MAIN/LAUNCHER activity}  over the MIN base.
 
+History dimension (the queries must not depend on what was asked before): for the RICH base and each of its single-dimension
+variations (thorough: also MIN's, and the RICH pairs over act, main, feat, extra) a FRESH APK object is built for every history
+  depth 1: each of the 30 public manifest queries in PRE (get_app_name, get_app_icon, get_main_activity, is_androidtv, ...,
+           get_intent_filters('activity', <first declared activity>), get_android_manifest_xml)
+  depth 2: every ordered pair (repeats included) over PRE2 = get_app_name, is_androidtv, get_main_activity, get_activities,
+           get_features, get_intent_filters
+the history is executed and then the complete judging routine runs; a violation that does not occur without the history is
+reported under  <api>:after:<pre-query>[+<pre-query>].
+
 Oracle = the model + Android's class-name completion rule (leading '.' -> package + name; no '.' at all -> package + '.' + name;
 otherwise unchanged) applied to component names ONLY.  Permission, feature and library names are compared literally.
 Comparisons are unordered (multisets) because find_tags collects elements into a set.
@@ -44,7 +53,9 @@ RULE = ("manifest models over 13 dimensions (package, version, uses-permission l
         "patterns, uses-sdk, features, libraries, pool encoding/resource map, bystander elements): around an empty and a rich "
         "base model every dimension at its full alphabet and every pair of dimensions at their full alphabets (thorough: plus "
         "the full product of package x 4 component name sets x main); each model written by gen/axmlgen, zipped, loaded by "
-        "APK(raw=True); cases are distinct model tuples; non-trivial = differs from the empty base")
+        "APK(raw=True); cases are distinct model tuples; non-trivial = differs from the empty base; history dimension: for the "
+        "rich base and its single-dimension variations every single pre-query out of 30 and every ordered pair of 6 is run on a "
+        "fresh APK object before the same judging")
 ASSUMPTIONS = [
     "gen/axmlgen.py is the independent binary-XML writer (byte layer reproduces 1005 shipped aapt/aapt2 files); the zip "
     "container is written by the stdlib zipfile module (deflated, one entry) - zip layouts are C33/C34's subject",
@@ -58,6 +69,8 @@ ASSUMPTIONS = [
     "effective target SDK is judged only when the values involved are numeric (target, else min, else 1); with a codename "
     "only 'int > 0' (the documented contract) is demanded",
     "the full cartesian product of all dimensions is replaced by the all-pairs-around-two-bases union stated in space()",
+    "histories are bounded to depth 2 (depth 1 over all 30 manifest queries, depth 2 over a 6-query menu) on the history models "
+    "listed in space(); exceptions raised by a pre-query itself (get_app_icon without resources) are not judged",
 ]
 MANIFEST = {
     "engine": "E2-structures",
@@ -68,7 +81,8 @@ MANIFEST = {
             "dot-less names, all subsets of relative/dot-less/qualified component names for the four component kinds, 23 "
             "MAIN/LAUNCHER patterns incl. aliases and disabled activities, all 27+1 uses-sdk shapes incl. codenames, features, "
             "libraries, pool encodings) is built into a real APK and every query of the property is compared with the model "
-            "under Android's name completion rule.  This level fits because the queries are pure functions of a small tree.",
+            "under Android's name completion rule; on ~190 of the models the same judging is repeated after every single other manifest "
+            "query and every ordered pair of six of them on a fresh object (answers must not depend on the query history).  This level fits because the queries are pure functions of a small tree.",
     "note": "Trusted: gen/axmlgen (validated against shipped files), stdlib zipfile, the stated Android completion rule. "
             "Alias / enabled=false / split-filter treatment of 'main activity' and codename effective targets are bounded, not "
             "pinned. All-pairs coverage, not the full product (thorough: full product of the component dimensions).",
@@ -362,8 +376,57 @@ def _multiset_missing(expected_pairs, got):
     return missing, pool
 
 
-def judge(m, stats=None):
-    """-> (violations [(key, msg)], outcome tuple).  The one judging routine shared by run_shard and replay."""
+def _first_activity(m):
+    names = list(m["act"]) + [e["n"] for e in m["main"] if e["k"] == "activity"]
+    return complete(m["pkg"], names[0] if names else ".None")
+
+
+# pre-queries (history dimension): every public query of APK that reads the manifest and needs no argument
+# (get_intent_filters gets a declared activity).  name -> callable(apk, model)
+PRE = {
+    "get_app_name": lambda a, m: a.get_app_name(),
+    "get_app_icon": lambda a, m: a.get_app_icon(),
+    "get_main_activity": lambda a, m: a.get_main_activity(),
+    "get_main_activities": lambda a, m: a.get_main_activities(),
+    "is_androidtv": lambda a, m: a.is_androidtv(),
+    "is_leanback": lambda a, m: a.is_leanback(),
+    "is_wearable": lambda a, m: a.is_wearable(),
+    "get_activities": lambda a, m: a.get_activities(),
+    "get_activity_aliases": lambda a, m: a.get_activity_aliases(),
+    "get_services": lambda a, m: a.get_services(),
+    "get_receivers": lambda a, m: a.get_receivers(),
+    "get_providers": lambda a, m: a.get_providers(),
+    "get_permissions": lambda a, m: a.get_permissions(),
+    "get_uses_implied_permission_list": lambda a, m: a.get_uses_implied_permission_list(),
+    "get_details_permissions": lambda a, m: a.get_details_permissions(),
+    "get_requested_aosp_permissions": lambda a, m: a.get_requested_aosp_permissions(),
+    "get_requested_third_party_permissions": lambda a, m: a.get_requested_third_party_permissions(),
+    "get_declared_permissions": lambda a, m: a.get_declared_permissions(),
+    "get_features": lambda a, m: a.get_features(),
+    "get_libraries": lambda a, m: a.get_libraries(),
+    "get_min_sdk_version": lambda a, m: a.get_min_sdk_version(),
+    "get_target_sdk_version": lambda a, m: a.get_target_sdk_version(),
+    "get_max_sdk_version": lambda a, m: a.get_max_sdk_version(),
+    "get_effective_target_sdk_version": lambda a, m: a.get_effective_target_sdk_version(),
+    "get_package": lambda a, m: a.get_package(),
+    "get_androidversion_code": lambda a, m: a.get_androidversion_code(),
+    "get_androidversion_name": lambda a, m: a.get_androidversion_name(),
+    "get_intent_filters": lambda a, m: a.get_intent_filters("activity", _first_activity(m)),
+    "get_android_manifest_xml": lambda a, m: a.get_android_manifest_xml(),
+    "get_android_manifest_axml": lambda a, m: a.get_android_manifest_axml().get_xml(),
+}
+PRE2 = ["get_app_name", "is_androidtv", "get_main_activity", "get_activities", "get_features", "get_intent_filters"]
+
+
+def histories():
+    """every single pre-query (depth 1) and every ordered pair over the reduced menu PRE2 (depth 2)"""
+    return [(h,) for h in PRE] + [tuple(p) for p in itertools.product(PRE2, repeat=2)]
+
+
+def judge(m, stats=None, history=()):
+    """-> (violations [(key, msg)], outcome tuple).  The one judging routine shared by run_shard and replay.
+    history: names of PRE queries issued on the fresh APK object before the judged queries (their exceptions, e.g.
+    get_app_icon without resources, are not the subject and are swallowed)."""
     from androguard.core.apk import APK
     out = []
     pkg = m["pkg"]
@@ -372,6 +435,16 @@ def judge(m, stats=None):
     except Exception as e:     # noqa
         return [("apk-init:" + sdk_feature(m), "APK(raw) raised %s: %s" % (type(e).__name__, e))], ("init-exc", type(e).__name__)
     obs = []
+    for h in history:
+        try:
+            r = PRE[h](a, m)
+            if stats is not None and r not in (None, "", [], {}, set(), False):
+                stats("prequery_nonempty:" + h)
+        except Exception:     # noqa
+            if stats is not None:
+                stats("prequery_exception:" + h)
+    if history:
+        stats = None       # branch counters of the plain space are not fed by history runs
 
     def q(api, f):
         try:
@@ -526,7 +599,66 @@ def space(ctx):
             "rule": "all models differing from a base in <= 2 dimensions (singles + all pairs at full alphabets), union over both bases"
                     + ("; plus full product pkg x act x svc x rcv x prv x main{none, one} over MIN" if ctx.thorough else ""),
             "component_names": NAMES, "permission_items": PERM_ITEMS, "feature_items": FEAT_ITEMS, "library_items": LIB_ITEMS,
-            "main_patterns": [t for t, _ in MAIN_ALPHA], "apks": len(cases(ctx))}
+            "main_patterns": [t for t, _ in MAIN_ALPHA], "apks": len(cases(ctx)),
+            "history": {"models": len(history_models(ctx)),
+                        "models_rule": "RICH base and its single-dimension variations"
+                                       + ("; MIN single-dimension variations; RICH pairs over act, main, feat, extra" if ctx.thorough else ""),
+                        "depth1_menu": list(PRE), "depth2_menu": PRE2,
+                        "histories_per_model": len(histories()),
+                        "rule": "on a fresh APK object per history: every single pre-query, every ordered pair (repeats included) of "
+                                "the depth-2 menu, then the full judge; only violations absent without history are reported"}}
+
+
+def history_models(ctx):
+    """model tuples that get the history treatment: the RICH base and its single-dimension variations; thorough adds the
+    single-dimension variations of MIN and all RICH pairs over the dimensions act, main, feat, extra."""
+    D = dims(ctx)
+    rich = tuple(r for _, _, r in D)
+    out = {rich}
+    bases = [rich] + ([tuple([0] * len(D))] if ctx.thorough else [])
+    for base in bases:
+        for i, (_, a, _) in enumerate(D):
+            for v in range(len(a)):
+                out.add(base[:i] + (v,) + base[i + 1:])
+    if ctx.thorough:
+        sel = [i for i, (n, _, _) in enumerate(D) if n in ("act", "main", "feat", "extra")]
+        for i, j in itertools.combinations(sel, 2):
+            for vi in range(len(D[i][1])):
+                for vj in range(len(D[j][1])):
+                    t = list(rich)
+                    t[i], t[j] = vi, vj
+                    out.add(tuple(t))
+    return sorted(out)
+
+
+def judge_history(m, history, cache=None, stats=None):
+    """violations that appear only because `history` was run first on the same APK object.
+    -> ([(key '<api>:after:<pre>[+<pre>]', msg)], outcome).  A violation of a depth-2 history that a single one of its
+    pre-queries already provokes is keyed by that single pre-query (minimal history)."""
+    cache = {} if cache is None else cache
+    history = tuple(history)
+    if () not in cache:
+        cache[()] = {k for k, _ in judge(m)[0]}     # wrong without any history too: the plain space's finding, not ours
+
+    def run(h):
+        if h not in cache:
+            res, outcome = judge(m, stats, h)
+            cache[h] = ([(k, msg) for k, msg in res if k not in cache[()]], outcome)
+        return cache[h]
+    res, outcome = run(history)
+    out, seen = [], set()
+    for key, msg in res:
+        minimal = history
+        if len(history) > 1:
+            for sub in dict.fromkeys((h,) for h in history):
+                if any(k == key for k, _ in run(sub)[0]):
+                    minimal = sub
+                    break
+        hk = "%s:after:%s" % (key.split(":")[0], "+".join(minimal))
+        if hk not in seen:
+            seen.add(hk)
+            out.append((hk, "after %s on the same APK object: %s" % (", ".join(h + "()" for h in history), msg)))
+    return out, outcome
 
 
 def run_shard(ctx, shard):
@@ -540,26 +672,52 @@ def run_shard(ctx, shard):
             acc.violation(key, {"model": m}, msg)
         if shard == 0 and len(acc.samples) < 3 and sum(1 for x in t if x) == 2:
             acc.sample({"model": m})
+    hs = histories()
+    for t in history_models(ctx)[shard::NSH]:
+        m = model_of(ctx, t)
+        cache = {}
+        for h in hs:
+            res, outcome = judge_history(m, h, cache, acc.count)
+            acc.case(nontrivial=(t, h), outcome=(h, outcome))
+            acc.count("histories_depth%d" % len(h))
+            for key, msg in res:
+                acc.violation(key, {"model": m, "history": list(h)}, msg)
+        acc.count("history_models")
+        if shard == 1 and len(acc.samples) < 4:
+            acc.sample({"model": m, "history": list(hs[-2])})
     return acc
 
 
 def replay(ctx, w):
     dims(ctx)
-    res, _ = judge(w["model"])
+    if w.get("history"):
+        res = judge_history(w["model"], tuple(w["history"]))[0]
+    else:
+        res, _ = judge(w["model"])
     return "\n".join("%s: %s" % (k, msg) for k, msg in res) if res else None
 
 
 def finalize(ctx, acc):
     n = len(cases(ctx))
-    if acc.n != n:
-        acc.harness_error("evaluated %d of %d cases" % (acc.n, n))
+    hm, hs = len(history_models(ctx)), histories()
+    d1 = sum(1 for h in hs if len(h) == 1)
+    if acc.n != n + hm * len(hs):
+        acc.harness_error("evaluated %d of %d cases" % (acc.n, n + hm * len(hs)))
+    if acc.extra.get("histories_depth1") != hm * d1 or acc.extra.get("histories_depth2") != hm * (len(hs) - d1) or hm < 150:
+        acc.harness_error("history dimension degenerated: %r models, depth1 %r, depth2 %r" % (
+            hm, acc.extra.get("histories_depth1"), acc.extra.get("histories_depth2")))
+    for h in ("get_app_name", "is_androidtv", "get_main_activity", "get_activities", "get_features", "get_intent_filters"):
+        if h != "get_app_name" and not acc.extra.get("prequery_nonempty:" + h):
+            acc.harness_error("vacuous: pre-query %s never returned anything" % h)
+        if acc.extra.get("prequery_exception:" + h):
+            acc.harness_error("pre-query %s raised %d times" % (h, acc.extra["prequery_exception:" + h]))
     # the oracle must be able to tell a wrong answer from a right one: completion rule self-test on fixed points
     if [complete("com.a", x) for x in NAMES] != ["com.a.Rel", "com.a.NoDot", "com.a.Full", "other.p.C"] or complete("a", "NoDot") != "a.NoDot":
         acc.harness_error("reference completion rule broken")
     init_fail = sum(v["count"] for k, v in acc.viol.items() if k.startswith("apk-init:"))
-    judged = acc.n - init_fail
-    if judged < acc.n // 2:
-        acc.harness_error("vacuous: only %d of %d APKs could be loaded and judged" % (judged, acc.n))
+    judged = n - init_fail
+    if judged < n // 2:
+        acc.harness_error("vacuous: only %d of %d APKs could be loaded and judged" % (judged, n))
     for c in ("main:none", "main:some", "effective:target-present", "effective:target-absent-min-present", "effective:both-absent"):
         if not acc.extra.get(c):
             acc.harness_error("vacuous: branch %r never exercised" % c)
